@@ -749,6 +749,66 @@ _TEXT_TRANSFORMS = ("strip", "lstrip", "rstrip", "lower", "upper", "casefold", "
                     "removeprefix", "removesuffix", "swapcase", "expandtabs", "zfill", "center", "ljust", "rjust")
 
 
+def xnorm(fnode: ast.AST, e: ast.AST, rounds: int = 4, stop=()) -> str:
+    """normalised text of an expression after every explaining local in it (a name bound exactly once in the function) has been replaced by
+    its definition, sub-expressions included - for comparing what an expression denotes, not for moving code"""
+    import copy as _cp
+    e2 = _cp.deepcopy(e)
+    holder = ast.Expr(value=e2)
+    for _ in range(rounds):
+        changed = False
+        for nd in [n for n in ast.walk(holder) if isinstance(n, ast.Name) and isinstance(n.ctx, ast.Load) and n.id not in stop]:
+            d = resolve_local(fnode, nd)
+            if d is nd or isinstance(d, ast.Name) and d.id == nd.id:
+                continue
+            d = _cp.deepcopy(d)
+            for par in ast.walk(holder):
+                for fld, val in ast.iter_fields(par):
+                    if val is nd:
+                        setattr(par, fld, d)
+                        changed = True
+                    elif isinstance(val, list) and any(v is nd for v in val):
+                        val[[i for i, v in enumerate(val) if v is nd][0]] = d
+                        changed = True
+        if not changed:
+            break
+    return norm(holder.value)
+
+
+def check_annotator_order(ctx: Ctx, rule: str, judge: bool = False):
+    """`annotators` (a plain sorted set of the names) and the iteration order of `_annotations` are the same order only while the mapping is a
+    SortedDict without a key function."""
+    M = ctx.model
+    if ("annotator-order", rule) in ctx.notes.setdefault("records_checked", set()):
+        return
+    ctx.notes["records_checked"].add(("annotator-order", rule))
+    # the annotator mapping: SortedDict(<key function>, ...) orders the annotators by that key, while `annotators` (a plain SortedSet of the
+    # keys) and everything documented say: by name.  Iteration order (`__iter__`, peekitem, the array builders) and `annotators` then disagree.
+    for g in list(M.functions.values()):
+        if isinstance(g.node, ast.Lambda):
+            continue
+        for c in walk_no_nested(g.node):
+            if not (isinstance(c, ast.Call) and dotted(c.func) in ("SortedDict", "sortedcontainers.SortedDict")):
+                continue
+            keyf = next((k.value for k in c.keywords if k.arg == "key"), None)
+            if keyf is None and c.args and (isinstance(c.args[0], ast.Lambda) or (isinstance(c.args[0], ast.Attribute) and norm(c.args[0].value) in ("str", "bytes", "operator")) or
+                                            (isinstance(c.args[0], ast.Name) and (c.args[0].id in M.functions or c.args[0].id in ("len", "str", "repr", "hash", "id")))):
+                keyf = c.args[0]
+            if keyf is None:
+                continue
+            ktxt = norm(keyf)
+            if not judge:
+                ctx.undecided(rule, g, c, f"the annotator mapping is ordered by the key function `{ktxt}`, `annotators` by name: the rules of this property read both as one "
+                              f"order (not a verdict; C13 and C10 judge it)", key="annotator-key")
+            elif any(w in ktxt for w in ("lower", "upper", "casefold", "strip", "len", "hash", "id", "swapcase", "title")):
+                ctx.bad(rule, g, c, f"the annotator mapping is ordered by the key function `{ktxt}`: iteration over the continuum (and everything that walks "
+                        f"_annotations: array builders, peekitem in the decoder) follows that key, while `annotators` is the plain sorted set of names - the two orders "
+                        f"differ as soon as two names compare differently under the key (and two names with equal keys are one annotator)", key="annotator-key")
+            else:
+                ctx.undecided(rule, g, c, f"a SortedDict is built with a key function (`{ktxt}`): the order of its keys is the key's, not the names' (not a verdict)",
+                              key="annotator-key")
+
+
 def check_annotator_key(ctx: Ctx, rule: str):
     """`add` / `add_annotator` file their work under the annotator they are given.  A text transformation of the name files it under another
     annotator than the one the set-per-annotator model - and every caller that looks the name up afterwards (the corpus shuffling tool, a
@@ -1084,6 +1144,76 @@ def check_special_methods(ctx: Ctx, rule: str = "R-SPECIAL-METHODS"):
     return n
 
 
+TRUSTED_NAMES = {"Segment": ("pyannote.core.Segment", "pyannote.core.segment.Segment"), "SortedSet": ("sortedcontainers.SortedSet",),
+                 "SortedDict": ("sortedcontainers.SortedDict",), "deepcopy": ("copy.deepcopy",), "ThreadPoolExecutor": ("concurrent.futures.ThreadPoolExecutor",),
+                 "np": ("numpy",), "numpy": ("numpy",), "nb": ("numba",), "cp": ("cvxpy",), "random": ("random",), "csv": ("csv",),
+                 "Counter": ("collections.Counter",), "total_ordering": ("functools.total_ordering",), "dataclass": ("dataclasses.dataclass",)}
+PINNED_BASES = {"Alignment": ["AbstractAlignment"], "SoftAlignment": ["Alignment"], "UnitaryAlignment": [], "AbstractAlignment": [], "Unit": [], "Continuum": [],
+                "GammaResults": [], "CorpusShufflingTool": [], "AbstractDissimilarity": [], "PositionalSporadicDissimilarity": ["AbstractDissimilarity"],
+                "CategoricalDissimilarity": ["AbstractDissimilarity"], "AbsoluteCategoricalDissimilarity": ["CategoricalDissimilarity"],
+                "PrecomputedCategoricalDissimilarity": ["CategoricalDissimilarity"], "LambdaCategoricalDissimilarity": ["PrecomputedCategoricalDissimilarity"],
+                "LevenshteinCategoricalDissimilarity": ["LambdaCategoricalDissimilarity"], "OrdinalCategoricalDissimilarity": ["PrecomputedCategoricalDissimilarity"],
+                "NumericalCategoricalDissimilarity": ["OrdinalCategoricalDissimilarity"], "CombinedCategoricalDissimilarity": ["AbstractDissimilarity"],
+                "AbstractContinuumSampler": [], "ShuffleContinuumSampler": ["AbstractContinuumSampler"], "StatisticalContinuumSampler": ["AbstractContinuumSampler"],
+                "SetPartitionError": ["Exception"]}
+
+
+def check_program_shape(ctx: Ctx, rule: str = "R-PROGRAM-SHAPE"):
+    """closedness guard on what the names mean: (a) the library names the rules trust (`Segment`, `SortedSet`, `SortedDict`, `deepcopy`, `np`,
+    `nb`, `cp`, ...) are bound, in every module, by the import the pinned tree uses - not to a look-alike defined or imported from elsewhere;
+    (b) the classes this property analysed derive from the bases of the pinned tree (a mixin or a different parent brings methods no rule
+    saw); (c) no statement outside a class body assigns to an attribute of a package class (`Continuum.add = ...`: the method the rules read is
+    not the one that runs).  Each is reported UNDECIDED (not a verdict)."""
+    M = ctx.model
+    n = 0
+    for m in M.modules.values():
+        if m.name.endswith("notebook"):
+            continue
+        defined = set(m.classes) | set(m.functions)
+        for name, sources in TRUSTED_NAMES.items():
+            got = m.aliases.get(name)
+            if name in defined:
+                n += 1
+                ctx.undecided(rule, None, None, f"{m.relpath} defines its own `{name}`: the rules read `{name}` as {sources[0]} (not a verdict)", construct=f"{m.relpath}:{name}",
+                              key=f"name:{m.relpath}:{name}")
+            elif got is not None and got not in sources and not any(got.startswith(s + ".") or got == s for s in sources):
+                n += 1
+                ctx.undecided(rule, None, None, f"{m.relpath} binds `{name}` to {got}: the rules read `{name}` as {sources[0]} (not a verdict)", construct=f"{m.relpath}:{name}",
+                              key=f"name:{m.relpath}:{name}")
+    analysed_classes = {M.functions[q].cls.name for q in ctx.functions_analysed if q in M.functions and M.functions[q].cls is not None}
+    for cn in sorted(analysed_classes):
+        c = M.classes.get(cn)
+        if c is None or cn not in PINNED_BASES:
+            continue
+        bases = [b.split(".")[-1] for b in c.base_names if b and b.split(".")[-1] not in ("object", "ABC", "Generic")]
+        kw = [k.arg for k in c.node.keywords if k.arg not in ("metaclass",)] + [norm(k.value) for k in c.node.keywords if k.arg == "metaclass" and norm(k.value) not in ("ABCMeta", "abc.ABCMeta")]
+        if bases != PINNED_BASES[cn] or kw:
+            n += 1
+            f0 = next(iter(c.methods.values()), None)
+            ctx.undecided(rule, f0, None, f"class {cn} derives from {bases or ['object']}{' with ' + str(kw) if kw else ''}; on the pinned tree: {PINNED_BASES[cn] or ['object']}. "
+                          f"Methods and special methods it inherits from elsewhere were not read by the rules (not a verdict)", construct=f"class {cn}", key=f"bases:{cn}")
+    pkg_classes = set(M.classes)
+    for m in M.modules.values():
+        for node in ast.walk(m.tree):
+            if not isinstance(node, (ast.Assign, ast.AugAssign, ast.Delete)) and not (isinstance(node, ast.Expr) and isinstance(node.value, ast.Call) and
+                                                                                       dotted(node.value.func) == "setattr"):
+                continue
+            targets = node.targets if isinstance(node, (ast.Assign, ast.Delete)) else [node.target] if isinstance(node, ast.AugAssign) else []
+            hit = None
+            for t in targets:
+                if isinstance(t, ast.Attribute) and isinstance(t.value, ast.Name) and t.value.id in pkg_classes | {"SortedSet", "SortedDict", "Segment"}:
+                    hit = norm(t)
+            if isinstance(node, ast.Expr) and node.value.args and isinstance(node.value.args[0], ast.Name) and node.value.args[0].id in pkg_classes:
+                hit = norm(node.value)
+            if hit is None:
+                continue
+            # inside the class body itself `X.attr = ...` at class level is not possible (X undefined); inside methods of X it is the memo idiom other rules judge
+            n += 1
+            ctx.undecided(rule, None, None, f"{m.relpath}:{getattr(node, 'lineno', 0)}: `{norm(node)[:90]}` assigns to an attribute of a class from outside its body: the "
+                          f"attribute / method the rules read on that class may not be the one in effect (not a verdict)", construct=hit, key=f"patch:{hit}")
+    return n
+
+
 _NJIT_SEMANTIC_OPTIONS = ("fastmath", "parallel", "error_model", "boundscheck", "forceobj", "looplift", "nopython", "locals")
 
 
@@ -1164,6 +1294,25 @@ def check_decorators(ctx: Ctx, rule: str = "R-DECORATORS"):
             short = d.split(".")[-1]
             if d in KNOWN_DECORATORS or d.startswith(("numba.njit", "nb.njit")) or short in ("dissimilarity_dec", "setter", "deleter", "getter"):
                 continue
+            if short in CACHING_DECORATORS and f.cls is not None and f.self_name:
+                # a memoised value computed from a field that another method of the class reassigns is stale after that method: recognised shape
+                sn_ = f.self_name
+                reads_ = {a.attr for a in ast.walk(f.node) if isinstance(a, ast.Attribute) and isinstance(a.ctx, ast.Load) and isinstance(a.value, ast.Name) and a.value.id == sn_}
+                stale_ = None
+                for k_ in [f.cls] + M.mro(f.cls)[1:] + M.subclasses.get(f.cls.name, []):
+                    for g_ in list(k_.methods.values()) + list(k_.setters.values()):
+                        if g_.name == "__init__" or g_ is f or not g_.self_name:
+                            continue
+                        for s_ in walk_no_nested(g_.node):
+                            if isinstance(s_, (ast.Assign, ast.AugAssign, ast.AnnAssign)):
+                                for t_ in (s_.targets if isinstance(s_, ast.Assign) else [s_.target]):
+                                    if isinstance(t_, ast.Attribute) and isinstance(t_.value, ast.Name) and t_.value.id == g_.self_name and t_.attr in reads_:
+                                        stale_ = stale_ or (g_, t_.attr)
+                if stale_ is not None:
+                    ctx.bad(rule, f, None, f"{qn} memoises its result (@{d}) but computes it from self.{stale_[1]}, which {stale_[0].qualname} reassigns: every call after that "
+                            f"returns the value computed from the previous self.{stale_[1]} - an object that is used twice answers from its first use",
+                            construct=f"@{d}", key=f"{qn}:{d}")
+                    continue
             kind = "memoises its results" if short in CACHING_DECORATORS else "is wrapped by a decorator the analysis does not model"
             ctx.undecided(rule, f, None, f"{qn} {kind} (@{d}): its body is no longer what every call executes - a result computed from state that "
                           f"changes later (an attribute reassigned between calls) would be stale; not a verdict by itself", construct=f"@{d}", key=f"{qn}:{d}")
